@@ -426,6 +426,42 @@ pub fn grid(tier: Tier) -> Vec<(Sys, usize)> {
     v
 }
 
+/// triangles, boxes and wedges around a centre c with slack >= 2 in every row, rows scaled by s
+fn far_family() -> Vec<Sys> {
+    let mut v = vec![];
+    let shapes: Vec<Vec<Vec<f64>>> = vec![
+        vec![vec![1.0, 0.0], vec![0.0, 1.0], vec![-1.0, -1.0]],
+        vec![vec![1.0, 0.0], vec![-1.0, 0.0], vec![0.0, 1.0], vec![0.0, -1.0]],
+        vec![vec![1.0, 2.0], vec![-3.0, 1.0], vec![1.0, -4.0]],
+        vec![vec![0.1, 1.0], vec![0.1, -1.0], vec![-1.0, 0.0]],
+        vec![vec![1.0, 1.0], vec![1.0, -1.0], vec![-1.0, 0.5]],
+    ];
+    for l in [16384.0f64, 131072.0, 1048576.0] {
+        for c in [vec![l, l], vec![l, -l / 2.0], vec![-l, 3.0], vec![-l / 4.0, -l]] {
+            for s in [1.0f64, 100.0, 1000.0, 10000.0, 1e6] {
+                for sh in &shapes {
+                    let rows: Vec<(Vec<f64>, f64)> = sh
+                        .iter()
+                        .map(|a| {
+                            let norm = (a[0] * a[0] + a[1] * a[1]).sqrt();
+                            let b = a[0] * c[0] + a[1] * c[1] + 2.0 * norm.ceil();
+                            (vec![a[0] * s, a[1] * s], b * s)
+                        })
+                        .collect();
+                    v.push(Sys { n: 2, rows });
+                }
+            }
+        }
+    }
+    for l in [16384.0f64, 1048576.0] {
+        for s in [1.0f64, 1000.0, 1e6] {
+            v.push(Sys { n: 1, rows: vec![(vec![s], (l + 2.0) * s), (vec![-s], -(l - 2.0) * s)] });
+            v.push(Sys { n: 3, rows: vec![(vec![s, 0.0, 0.0], (l + 2.0) * s), (vec![-s, s, 0.0], 4.0 * s), (vec![0.0, -s, s], 4.0 * s), (vec![0.0, 0.0, -s], (l + 2.0) * s), (vec![-s, -s, -s], -(3.0 * l - 30.0) * s)] });
+        }
+    }
+    v
+}
+
 pub fn run(tier: Tier) -> Report {
     let mut rep = Report::new("C10", tier, "exploration");
     let g = grid(tier);
@@ -446,6 +482,41 @@ pub fn run(tier: Tier) -> Report {
         }
         o
     });
+    // polytopes that contain a ball of radius 1, far from the origin and with rows scaled up: only the verdict is
+    // judged there (a vertex cannot be represented to 1e-8 at that magnitude), and it must not be "infeasible"
+    let far = far_family();
+    rep.set("systems_far_from_origin", far.len() as u64);
+    let tf = par_cases(&far, |_, s| {
+        let mut out = CaseOut::default();
+        out.add("systems", 1);
+        out.add("systems_nontrivial", 1);
+        let rq = s.rows_q();
+        if thickness(s.n, &rq, &Q::ONE) != Thickness::Fat {
+            return out; // not a member of the family (cannot happen by construction)
+        }
+        let rec = |what: &str| json!({"n": s.n, "rows_A_b": s.rows, "call": what});
+        let p = s.poly();
+        out.add("evaluations", 2);
+        match catch(|| (p.status(), p.is_feasible())) {
+            Err(m) => out.violate(Violation::new(format!("status panicked: {m}"), rec("status")).tag("call", "status").tag("kind", "panic").tag("family", "far")),
+            Ok((st, fe)) => {
+                if matches!(st, PolytopeStatus::Infeasible) {
+                    out.violate(Violation::new("status() = Infeasible for a polytope that contains a unit ball", rec("status")).tag("call", "status").tag("kind", "infeasible_but_fat").tag("family", "far"));
+                }
+                if !fe {
+                    out.violate(Violation::new("is_feasible() = false for a polytope that contains a unit ball", rec("is_feasible")).tag("call", "is_feasible").tag("kind", "infeasible_but_fat").tag("family", "far"));
+                }
+            }
+        }
+        for c in objectives(s.n, &[0.0, 1.0, -1.0]) {
+            out.add("evaluations", 1);
+            if let Ok(PolytopeStatus::Infeasible) = catch(|| p.solve_linprog(Array1::from(c.clone()), false)) {
+                out.violate(Violation::new(format!("solve_linprog({:?}) = Infeasible for a polytope that contains a unit ball", c), rec("solve_linprog")).tag("call", "solve_linprog").tag("kind", "infeasible_but_fat").tag("family", "far"));
+            }
+        }
+        out
+    });
+    rep.absorb(tf);
     rep.set("systems_total", g.len() as u64);
     if let Some((s, _)) = g.get(g.len() / 2) {
         rep.samples.push(json!({"n": s.n, "rows_A_b": s.rows, "objectives": objs[s.n - 1]}));
